@@ -92,6 +92,7 @@ def sources(tier):
             if n == 4 and tier != 'thorough' and kind == 'mixed': pass
             for shape in shapes(n):
                 if n >= 4 and tier != 'thorough' and shape.count('not') > 2: continue          # quick: at most two negations in the 4-leaf formulas
+                if n >= 5 and shape.count('not') > 1: continue                                  # thorough: 5 leaves with at most one negation
                 src = shape
                 for k in range(n): src = src.replace('L%d' % k, '(%s)' % leaves[k])
                 out.append(('cond', '(x.p for x in xs if %s)' % src))
